@@ -13,9 +13,13 @@ CONSTANTS
  MaxAdmin = 2
  MaxClose = 0
  MaxInval = 0
+ MaxCompact = 0
  FixRelease = TRUE
  DevReleaseRace = FALSE
  DevPutIfOwnerOther = FALSE
+ DevReacqBlind = FALSE
+ DevDropSameRev = FALSE
+ DevNoReload = FALSE
  FixRev = FALSE
  KeepHist = FALSE
 SPECIFICATION FairSpec
